@@ -24,7 +24,7 @@ func zzReadBuffer(s []byte) api.IoBuffer {
 // VerifC08_BoltV2Arbitrary: arbitrary bytes into the bolt decoder.
 func VerifC08_BoltV2Arbitrary() {
 	verif.NoPanic()
-	n := verif.Len("n", 0, verif.Param("N", 32, 48))
+	n := verif.Len("n", 0, verif.Param("N", 32, 36))
 	s := verif.Bytes("s", n)
 	verif.AllocLimit(n + 64)
 	if n > 0 {
